@@ -121,6 +121,16 @@ class SphinxRenderer(DocutilsRenderer):
         if destination.startswith("path:"):
             destination = destination[5:]
         destination = self._handle_relative_docs(destination)
+        if "://" not in destination and self.sphinx_env.srcdir:
+            _, abs_path = self.sphinx_env.relfn2path(destination, self.sphinx_env.docname)
+            if not os.access(abs_path, os.R_OK):
+                self.create_warning(
+                    f"Could not find file: {abs_path}",
+                    MystWarnings.XREF_MISSING,
+                    line=token_line(token, 0),
+                    append_to=self.current_node,
+                )
+                return self.render_link_url(token)
         explicit = (token.info != "auto") and (len(token.children or []) > 0)
         wrap_node = addnodes.download_reference(
             refdomain=None,
